@@ -137,7 +137,8 @@ def bfs_edges(
     for u, v in edges:
         adj[u].append(v)
 
-    result = bfs(source, target, lambda s: adj[s])
+    # every node is expanded at most once: with this budget the generic routine's iteration limit never binds
+    result = bfs(source, target, lambda s: adj[s], max_iter=n_nodes + 1)
     if target is None:
         # Convert visited set to sorted list for consistent output
         return Result(sorted(result.solution), 0, result.iterations, result.evaluations)
@@ -157,7 +158,7 @@ def dfs_edges(
     for u, v in edges:
         adj[u].append(v)
 
-    result = dfs(source, target, lambda s: adj[s])
+    result = dfs(source, target, lambda s: adj[s], max_iter=n_nodes + 1)
     if target is None:
         return Result(sorted(result.solution), 0, result.iterations, result.evaluations)
     return result
